@@ -343,7 +343,7 @@ package gpbft
 // message must still be relevant, bottom must be announced as bottom, and the justification must be for the value
 // the protocol prescribes for the step pair.
 //@ func (*cachingValidator).FullyValidateMessage
-//@   property C13 C05
+//@   property C13 C05 C01
 //@   modifies auto
 //@   maypanic
 //@   at return 11
@@ -770,3 +770,18 @@ package gpbft
 //@     before[only_a_non_validation_error_aborts_the_batch] res(receiveOne, 1, 1) != nil && !res(As, 1) && argOf(As, 1, 0) == res(receiveOne, 1, 1) && arg(0) == res(receiveOne, 1, 1)
 //@   at receiveOne 1
 //@     before[each_queued_message] arg(1) == msg
+
+// Phase timeouts: the alarm is set to now + 2 * delta, where delta is the participant's synchrony bound scaled (in
+// floating point, not modelled) by the phase multiplier and the per-round back-off.
+//@ func (*instance).alarmAfterSynchronyWithMulti
+//@   property C07 C02
+//@   modifies auto
+//@   maypanic
+//@   at Add 1
+//@     before[timeout_is_twice_the_scaled_delay_from_now] arg(0) == res(Time, 1) && (abs(delta) <= 2305843009213693952 ==> arg(1) == 2 * delta)
+//@   at Pow 1
+//@     before[back_off_is_exponential_in_the_round] arg(0) == i.participant.deltaBackOffExponent
+//@   at SetAlarm 1
+//@     before[the_alarm_is_the_returned_timeout] arg(0) == res(Add, 1)
+//@   at return 0
+//@     before[returns_the_alarm_time] arg(0) == res(Add, 1) && dominatedBy(SetAlarm, 1)
